@@ -442,8 +442,34 @@ def report_extensions(r, n=60):
     return out
 
 
+PARSE_MINS = [4, 6, 8, 12, 13, 20]      # third-party minimum lengths, also ones that are not whole words
+
+
 def custom_kinds():
-    return [("custom", pt, mn) for pt in gen.CUSTOM_PTS for mn in gen.CUSTOM_MINS]
+    return [("custom", pt, mn) for pt in gen.CUSTOM_PTS for mn in PARSE_MINS]
+
+
+def helper_stream(r, tier):
+    """direct calls of the public helpers of utils::writer / utils::parser for all their parameters"""
+    out = []
+    H = lambda q, **m: (q, dict({"op": "helper"}, **m))
+    lens = list(range(0, 14)) + [16, 20, 64, 1024, 4096, 65536, 262144]
+    for pt in gen.CUSTOM_PTS:
+        for pad in (0, 4, 8, 252, 255, 1):
+            for cnt in (0, 1, 31, 32, 255, r.getrandbits(5)):
+                for L in (lens if (pt in (242, 200) and pad in (0, 4)) else [4, 8, r.choice(lens)]):
+                    fill = r.choice(["ee", "00", "pat"])
+                    out.append(H(f"(helper write_header {pt} {pad} {cnt} {L} {fill})", name="write_header", pt=pt, padding=pad, count=cnt, len=L, fill=fill))
+    for p in range(256):
+        for L in sorted({max(0, p - 1), p, p + 1, p + 7, 300}):
+            fill = r.choice(["ee", "pat", "00"])
+            out.append(H(f"(helper write_padding {p} {L} {fill})", name="write_padding", padding=p, len=L, fill=fill))
+    for p in range(256):
+        out.append(H(f"(helper check_padding {p})", name="check_padding", padding=p))
+    for _ in range(300 if tier == "quick" else 5000):
+        b = gen.r_bytes(r, r.choice([0, 1, 2, 3, 4, 5, 7, 8, 12, r.randint(0, 16)]))
+        out.append(H(f"(helper parse_fields {B(b)})", name="parse_fields", bytes=b))
+    return out
 
 
 # ---- build streams ---------------------------------------------------------------------------
